@@ -161,6 +161,11 @@ func Input(l *InputSharedVars, g *GlobalVarsMain, hPath *HFilePath, driConfig *C
 				if g.IZM/g.DZ.Index > g.N {
 					g.IZM = g.N * g.DZ.Index
 				}
+				// the leaching depth cannot lie below the profile: fluxes exist for the layer boundaries 0..N only,
+				// a deeper Q1[OUTN] is never written and seepage, capillary rise and N leaching would be reported as 0
+				if g.OUTN > g.N {
+					g.OUTN = g.N
+				}
 
 				if currentSoil.useGroundwaterFromSoilfile {
 					g.GRHI = currentSoil.GRHI
